@@ -92,7 +92,7 @@ SCAN = Contract(
     loops={0: LoopSpec(anchor="enumerate(self._data[self._index])", invariants=_scan_inv(), ghost_step=_scan_ghost, modifies=("gp", "gw"))},
     modifies=("gp", "gw"), min_obligations=6,
     extra=dict(engine=RegexpEngine, variant="scan", local_types=dict(iilst=TSeqInt), frame_ghosts=False,
-               block=dict(first="regexpr = re.compile(name, flags=self._regex_flags)", count=4)),
+               block=dict(first="regexpr = re.compile(name, flags=self._regex_flags)", last="for ii, nn in enumerate(self._data[self._index]):")),
     note="every row is tested with fullmatch, hits are collected in table order")
 
 # ----------------------------------------------------------------------------- block "combine"
@@ -175,7 +175,7 @@ COMBINE = Contract(
     loops={0: LoopSpec(anchor="nnlst", invariants=_comb_inv(), ghost_step=_comb_ghost, modifies=("gn", "gq", "self._index_cache", "self._count_cache", "self._names_cache"))},
     modifies=("iilst", "gn", "gq", "self._index_cache", "self._count_cache", "self._names_cache"), min_obligations=8,
     extra=dict(engine=RegexpEngine, variant="combine", local_types=dict(iilst=TSeqInt), frame_ghosts=False,
-               block=dict(first="if count is not None:", count=2, nth=1, of=2)),
+               block=dict(first="if count is not None:", last="return np.array(sorted(iilst), dtype=int) + offset", nth=1, of=2)),
     note="with '::count': for every matched name the row of its count-th occurrence (via the proved _get_row_cache), each once; "
          "always: sorted ascending, shifted by the offset")
 
